@@ -656,6 +656,50 @@ func FactsAt(b *ssa.BasicBlock) []Fact {
 	if site := ExpandedInto(b.Parent()); site != nil {
 		out = append(out, FactsAt(site.Block())...)
 	}
+	return derivePhiFacts(out, 0)
+}
+
+// derivePhiFacts: a boolean held in a local (`ok := a && b`, `skip := x || y`)
+// is a phi of constants and one computed operand. Knowing the phi's value
+// rules the constant edges in or out; when exactly one edge can have produced
+// the value, that operand has the value too, and whatever holds on that edge
+// holds here.
+func derivePhiFacts(facts []Fact, depth int) []Fact {
+	if depth > 3 {
+		return facts
+	}
+	out := facts
+	for _, f := range facts {
+		ph, ok := f.Cond.(*ssa.Phi)
+		if !ok {
+			continue
+		}
+		var cand []int
+		for i, e := range ph.Edges {
+			if c, isC := ConstBool(e); isC {
+				if c == f.Val {
+					cand = append(cand, i)
+				}
+				continue
+			}
+			cand = append(cand, i)
+		}
+		if len(cand) != 1 {
+			continue
+		}
+		e := ph.Edges[cand[0]]
+		if _, isC := ConstBool(e); isC {
+			continue
+		}
+		extra := []Fact{{Cond: e, Val: f.Val, If: f.If}}
+		extra = append(extra, FactsAt(ph.Block().Preds[cand[0]])...)
+		// the predecessor itself may end in the branch that led here
+		pred := ph.Block().Preds[cand[0]]
+		if iff, isIf := pred.Instrs[len(pred.Instrs)-1].(*ssa.If); isIf && pred.Succs[0] != pred.Succs[1] {
+			extra = append(extra, Fact{Cond: iff.Cond, Val: pred.Succs[0] == ph.Block(), If: iff})
+		}
+		out = append(out, derivePhiFacts(extra, depth+1)...)
+	}
 	return out
 }
 
